@@ -11,8 +11,12 @@ import time
 
 VERIF = os.path.dirname(os.path.dirname(os.path.abspath(__file__)))
 REPO = os.environ.get("VERIF_REPO", "/repo")
-BUILD = os.path.join(VERIF, ".build")
+# Overrides used only when trying the checks against a scratch worktree carrying a seeded change
+# (so that /repo itself and the registered evidence stay untouched): VERIF_REPO, VERIF_BUILD_DIR,
+# VERIF_OUT_DIR (evidence/ and replays/ go under it).
+BUILD = os.environ.get("VERIF_BUILD_DIR", os.path.join(VERIF, ".build"))
 SCRATCH_ROOT = os.path.join(VERIF, ".scratch")
+OUT_DIR = os.environ.get("VERIF_OUT_DIR", VERIF)
 NCPU = os.cpu_count() or 4
 
 
